@@ -35,9 +35,9 @@ Readings adopted:
     deserialize_from_batch accepts it when every missing field has a default (schema evolution) is tallied, not flagged.
   * annotation spellings are a generated dimension (X, X | None, Optional[X], Annotated[X, m], Annotated[X, m] | None,
     Optional[Annotated[X, ArrowType(..)]], Annotated[X | None, m], Annotated inside containers).  The framework strips Optional
-    first and Annotated second everywhere, so Annotated[X | None, m] is not recognised as optional on the unchanged tree (None
-    refused, Enum/dict/frozenset arrive unconverted): judged a genuine defect of this property (optionals are listed, the annotation
-    is accepted at class-definition time, a well-typed value is silently changed), key optional-marker-inside-annotated-not-recognised.
+    first and Annotated second everywhere; before fix e0af9e7 _is_optional_type did not look through Annotated, so Annotated[X | None, m]
+    was not optional (None refused, Enum/dict/frozenset arrived unconverted): a genuine defect of this property, repaired; the check for
+    it stays (key optional-marker-inside-annotated-not-recognised) and the model's is_opt follows the repaired shape (is_optional_tie).
   * sets (`frozenset`) only: `set[T]` is refused by _infer_arrow_type at class-definition time.
   * equality of floats is bit equality (NaN payload, signed zero).
 """
@@ -83,11 +83,14 @@ def wire_plain(t: tuple) -> bool:
 
 
 def supported(t: tuple) -> bool:
-    """Mirror of M_Values.supported: X, X | None, Annotated[X, m], Annotated[X, m] | None -- not Annotated[X | None, m]."""
-    if t[0] == "opt":
-        t = t[1]
-    if t[0] == "ann":
-        t = t[1]
+    """Mirror of M_Values.supported: X, X | None, Annotated[X, m], Annotated[X, m] | None, Annotated[X | None, m]."""
+    if t[0] == "ann" and t[1][0] == "opt":
+        t = t[1][1]
+    else:
+        if t[0] == "opt":
+            t = t[1]
+        if t[0] == "ann":
+            t = t[1]
     if t[0] in ("opt", "ann"):
         return False
     if t[0] in ("enum", "data"):
@@ -309,7 +312,7 @@ def run(ctx: Any) -> None:
                 "C02_param_exact", "C02_result_exact", "C02_echo", "C02_accepts", "C02_none_refused_unless_optional",
                 "C02_reject_or_exact", "C02_no_silent_change_partial", "C02_float64_bits", "C02_int_range_iff",
             ],
-            "T_Values": ["convert_order_tie", "infer_order_tie", "type_map_tie", "result_schema_tie", "C02_source_echo", "C02_source_accepts"],
+            "T_Values": ["convert_order_tie", "infer_order_tie", "type_map_tie", "result_schema_tie", "is_optional_tie", "C02_source_echo", "C02_source_accepts"],
         },
     )
     try:
@@ -387,13 +390,14 @@ def run(ctx: Any) -> None:
             return
         raw, t = t, H.norm(t)  # values are judged against the annotation's meaning, whatever its spelling
         if opt_inside_ann(raw):
-            # Annotated[X | None, meta]: per the property an optional X.  The unchanged framework does not see the marker inside
-            # the wrapper (None refused; Enum / dict / frozenset values arrive unconverted; dataclasses refused): R_C02.v lemma 7.
+            # Annotated[X | None, meta]: per the property an optional X.  Before e0af9e7 the framework did not see the marker inside
+            # the wrapper (None refused; Enum / dict / frozenset values arrived unconverted; dataclasses refused): R_C02.v lemma 7.
+            # Kept as its own check so that the finding is reported under its key if it ever returns; the ordinary oracle follows.
             bad = well and (not o.ok or not (o.seen and H.exact_eq(v, o.seen[0])) or not H.exact_eq(v, o.result))
             if bad:
                 ctx.violation("optional-marker-inside-annotated-not-recognised",
                               "Annotated[X | None, meta] is not treated as an optional X: " + ("refused" if not o.ok else "value arrives unconverted"), repl)
-            return
+                return
         sup = supported(raw)
         if not sup:
             ctx.tally("outside-statement", f"{shape(raw)}:{'ok' if o.ok else 'reject'}:{'same' if o.ok and H.same_value(v, o.result, t) else 'changed' if o.ok else '-'}")
